@@ -495,6 +495,97 @@ theorem range_complete_of_sound_hulls : ∀ (hs : List ChkInfo) (cks : List Chun
       simp only [inRange, Bool.and_eq_true, decide_eq_true_eq]
       omega
 
+/-! ## the first write after a start without a usable snapshot -/
+
+theorem listMin_le_init : ∀ (l : List Int) (d : Int), listMin l d ≤ d
+  | [], d => Int.le_refl d
+  | x :: r, d => by
+    show listMin r (if x < d then x else d) ≤ d
+    by_cases hx : x < d
+    · rw [if_pos hx]; have := listMin_le_init r x; omega
+    · rw [if_neg hx]; exact listMin_le_init r d
+
+theorem listMin_le_mem : ∀ (l : List Int) (d t : Int), t ∈ l → listMin l d ≤ t
+  | [], _, _, h => by cases h
+  | x :: r, d, t, h => by
+    show listMin r (if x < d then x else d) ≤ t
+    rcases List.mem_cons.mp h with e | e
+    · subst e
+      by_cases hx : t < d
+      · rw [if_pos hx]; exact listMin_le_init r t
+      · rw [if_neg hx]; have := listMin_le_init r d; omega
+    · exact listMin_le_mem r _ t e
+
+theorem init_le_listMax : ∀ (l : List Int) (d : Int), d ≤ listMax l d
+  | [], d => Int.le_refl d
+  | x :: r, d => by
+    show d ≤ listMax r (if d < x then x else d)
+    by_cases hx : d < x
+    · rw [if_pos hx]; have := init_le_listMax r x; omega
+    · rw [if_neg hx]; exact init_le_listMax r d
+
+theorem mem_le_listMax : ∀ (l : List Int) (d t : Int), t ∈ l → t ≤ listMax l d
+  | [], _, _, h => by cases h
+  | x :: r, d, t, h => by
+    show t ≤ listMax r (if d < x then x else d)
+    rcases List.mem_cons.mp h with e | e
+    · subst e
+      by_cases hx : d < t
+      · rw [if_pos hx]; exact init_le_listMax r t
+      · rw [if_neg hx]; have := init_le_listMax r d; omega
+    · exact mem_le_listMax r _ t e
+
+/-- the rebuilt hull contains every record of the chunk -/
+theorem rebuildHull_sound (recs : List Int) (ci : ChkInfo) : ∀ t ∈ recs, (rebuildHull recs ci).minTs ≤ t ∧ t ≤ (rebuildHull recs ci).maxTs := by
+  intro t ht
+  cases recs with
+  | nil => cases ht
+  | cons a r =>
+    have h1 := listMin_le_mem (a :: r) a t ht
+    have h2 := mem_le_listMax (a :: r) a t ht
+    simp only [rebuildHull, ChkInfo.update]
+    constructor
+    · split <;> omega
+    · split <;> omega
+
+/-- **No flushed event is hidden after a start without a usable snapshot, even when the first thing that touches the
+partition is a write** (missing or torn `cindex.dat` ⇒ the index has no entry for the source: `cindexLoad_missing`,
+`cindexLoad_torn`): `onWrite` creates the entry from the notified batch only, but because an unknown source counts as a
+new chunk (`onWriteUnknownSourceSetsNewChk`) and a new chunk that already holds records is rebuilt
+(`onWriteNewChunkMidwayRebuilds`), the hull — once the rebuilder ran — contains every record of the chunk, the old ones
+and the batch, so every RANGE query over that chunk returns exactly the events in range. -/
+theorem no_event_hidden_after_first_write_on_lost_snapshot (m : CMap) (src : Src) (cid : Nat) (before batch : List Int)
+    (mn mx lo hi : Int) (hunk : alookup m src = none) (hb : before ≠ []) :
+    let m' := cindexOnWriteR m src cid before batch mn mx
+    let ck : Chunk := ⟨cid, before ++ batch⟩
+    onWriteUnknownSourceSetsNewChk = true ∧ onWriteNewChunkMidwayRebuilds = true ∧
+    rangeVisible (hullView m' src [ck]) [ck] lo hi = rangeSpec [ck] lo hi := by
+  have f1 : onWriteUnknownSourceSetsNewChk = true := by decide
+  have f2 : onWriteNewChunkMidwayRebuilds = true := by decide
+  refine ⟨f1, f2, ?_⟩
+  have hne : before.isEmpty = false := by cases before <;> simp_all
+  have hm' : alookup (cindexOnWriteR m src cid before batch mn mx) src
+      = some [rebuildHull (before ++ batch) ⟨cid, mn, mx, 0⟩] := by
+    simp only [cindexOnWriteR, onWriteNewChk, hunk, f1, f2, hne, cindexOnWrite, alookup_aset_self, Bool.not_false,
+      Bool.and_self, if_true, List.getLast?_singleton, List.dropLast_singleton, List.nil_append]
+  have hid : (rebuildHull (before ++ batch) ⟨cid, mn, mx, 0⟩).id = cid := by
+    unfold rebuildHull; split <;> simp [ChkInfo.update]
+  apply range_complete_of_sound_hulls
+  · simp [hullView, syncChunks]
+  · intro i h ck' hh hck t ht
+    cases i with
+    | zero =>
+      simp only [hullView, syncChunks, hm', Option.getD_some, List.map_cons, List.map_nil, List.getElem?_cons_zero,
+        Option.some.injEq] at hh hck
+      subst hck
+      have hs : syncChunk [rebuildHull (before ++ batch) ⟨cid, mn, mx, 0⟩] ⟨cid, before ++ batch⟩
+          = rebuildHull (before ++ batch) ⟨cid, mn, mx, 0⟩ := by
+        simp [syncChunk, hid]
+      rw [hs] at hh
+      subst hh
+      exact rebuildHull_sound _ _ t ht
+    | succ j => simp at hck
+
 /-! ## non-vacuity -/
 
 example : nameCollision [⟨⟨[116], [], []⟩, []⟩] = false := by decide
